@@ -275,6 +275,8 @@ structure Body (K : Type) where
   l : V3 K
   Mk : SpI K
   H : List (SV K)
+  /-- `isUDotKnown`: the mobilizer's acceleration is prescribed (Motion) -/
+  presc : Bool := false
 
 def Body.d (b : Body K) : Nat := b.H.length
 
@@ -327,15 +329,15 @@ structure Abi (K : Type) where
   DI : List (List K)
   G : List (SV K)
 
-/-- `realizeArticulatedBodyInertiasInward` (non-prescribed mobilizer) -/
+/-- `realizeArticulatedBodyInertiasInward` (for a prescribed mobilizer `P⁺ = P` and `D`, `DI`, `G` are not used) -/
 def abiIn (b : Body K) (kids : List (Body K × Abi K)) : Body K × Abi K :=
   let p := kids.foldl (fun (acc : ArtI K) (c : Body K × Abi K) => acc.add (c.2.PPlus.shift c.1.l)) (ArtI.ofSpI b.Mk)
+  if b.presc then (b, ⟨p, p, [], [], []⟩) else
   let ph : List (SV K) := b.H.map p.mulSV                        -- PH = P*H
   let dmat : List (List K) := b.H.map (fun hi => ph.map (fun pj => hi.dot pj))   -- D = ~H * PH
   let di := ginv dmat b.d                                          -- DI = D.invert()
-  let g : List (SV K) := di.map (fun _ => SV.zero) |>.zipIdx |>.map (fun (e : SV K × Nat) =>
-      -- G = PH * DI : column j = Σ_k PH_k * DI(k,j)
-      hMul ph (di.map (fun row => row.getD e.2 0)))
+  -- G = PH * DI : column j = Σ_k PH_k * DI(k,j)
+  let g : List (SV K) := (List.range b.d).map (fun j => hMul ph (di.map (fun row => row.getD j 0)))
   let acc3 (f : SV K → SV K → M33 K) : M33 K :=
     (List.zipWith f g ph).foldl M33.add M33.zero
   let massMoment := acc3 (fun gk pk => M33.outer gk.w pk.v)        -- G.row(0) * ~PH.row(1)
@@ -353,12 +355,14 @@ Node value: (body, abi, zPlus, eps) -/
 def mInvIn (f : Array K) (x : Body K × Abi K) (kids : List (Body K × Abi K × SV K × List K)) :
     Body K × Abi K × SV K × List K :=
   let z := kids.foldl (fun (acc : SV K) (c : Body K × Abi K × SV K × List K) => acc.add (phiMul c.1.l c.2.2.1)) SV.zero
+  if x.1.presc then (x.1, x.2, z, []) else
   let eps := lsub (slice f x.1.u0 x.1.d) (hTMul x.1.H z)
   (x.1, x.2, z.add (hMul x.2.G eps), eps)
 
 /-- `multiplyByMInvPass2Outward`: `udot = DI eps - ~G APlus`, `A = APlus + H udot` -/
 def mInvOut (aP : SV K) (x : Body K × Abi K × SV K × List K) : (Nat × List K) × SV K :=
   let aPlus := phiTMul x.1.l aP
+  if x.1.presc then ((x.1.u0, x.1.H.map (fun _ => (0 : K))), aPlus) else
   let udot := lsub (lmulVec x.2.1.DI x.2.2.2) (hTMul x.2.1.G aPlus)
   ((x.1.u0, udot), aPlus.add (hMul x.1.H udot))
 
@@ -396,11 +400,13 @@ structure FwdNode (K : Type) where
 
 /-- `calcUDotPass1Inward` (non-prescribed): `z = (P a + b) - F + Σ Phi_c zPlus_c`, `eps = f - ~H z`,
 `zPlus = z + G eps` -/
-def fwdIn (f : Array K) (x : Body K × Abi K × Bias K) (kids : List (FwdNode K)) : FwdNode K :=
+def fwdIn (f udotP : Array K) (x : Body K × Abi K × Bias K) (kids : List (FwdNode K)) : FwdNode K :=
   let z0 := ((x.2.1.P.mulSV x.2.2.a).add x.2.2.b).sub x.2.2.F
-  let z := kids.foldl (fun (acc : SV K) (c : FwdNode K) => acc.add (phiMul c.body.l c.zPlus)) z0
+  -- prescribed: z += P (H udot_p)
+  let z1 := if x.1.presc then z0.add (x.2.1.P.mulSV (hMul x.1.H (slice udotP x.1.u0 x.1.d))) else z0
+  let z := kids.foldl (fun (acc : SV K) (c : FwdNode K) => acc.add (phiMul c.body.l c.zPlus)) z1
   let eps := lsub (slice f x.1.u0 x.1.d) (hTMul x.1.H z)
-  ⟨x.1, x.2.1, x.2.2, z, z.add (hMul x.2.1.G eps), eps⟩
+  ⟨x.1, x.2.1, x.2.2, z, if x.1.presc then z else z.add (hMul x.2.1.G eps), eps⟩
 
 structure AccNode (K : Type) where
   body : Body K
@@ -409,13 +415,17 @@ structure AccNode (K : Type) where
   aPlus : SV K
   udot : List K
   A : SV K
+  /-- prescribed-motion force `tau = eps − ~H (P APlus)` (empty for a free mobilizer) -/
+  tau : List K
 
 /-- `calcUDotPass2Outward`: `APlus = ~Phi A_GP`, `udot = DI eps - ~G APlus`, `A_GB = APlus + H udot + a` -/
-def fwdOut (aP : SV K) (x : FwdNode K) : AccNode K × SV K :=
+def fwdOut (udotP : Array K) (aP : SV K) (x : FwdNode K) : AccNode K × SV K :=
   let aPlus := phiTMul x.body.l aP
-  let udot := lsub (lmulVec x.abi.DI x.eps) (hTMul x.abi.G aPlus)
+  let udot := if x.body.presc then slice udotP x.body.u0 x.body.d
+              else lsub (lmulVec x.abi.DI x.eps) (hTMul x.abi.G aPlus)
+  let tau := if x.body.presc then lsub x.eps (hTMul x.body.H (x.abi.P.mulSV aPlus)) else []
   let a := (aPlus.add (hMul x.body.H udot)).add x.bias.a
-  (⟨x.body, x.abi, x.zPlus, aPlus, udot, a⟩, a)
+  (⟨x.body, x.abi, x.zPlus, aPlus, udot, a, tau⟩, a)
 
 /-- attach per-body data (looked up by body index) to the abi-annotated forest -/
 def attach {β : Type} (dflt : β) (tab : Array β) (x : Body K × Abi K) : Body K × Abi K × β :=
@@ -432,10 +442,11 @@ end
 def Bias.zero : Bias K := ⟨SV.zero, SV.zero, SV.zero⟩
 
 /-- `calcTreeAccelerations`: returns the per-body results in preorder -/
-def forwardDynamics (abi : List (Tr (Body K × Abi K))) (bias : Array (Bias K)) (f : Array K) : List (AccNode K) :=
+def forwardDynamics (abi : List (Tr (Body K × Abi K))) (bias : Array (Bias K)) (f : Array K)
+    (udotP : Array K := #[]) : List (AccNode K) :=
   let t0 := Tr.mapL' (attach Bias.zero bias) abi
-  let t1 := Tr.mapUpL (fwdIn f) t0
-  Tr.flattenL (Tr.mapDownL fwdOut t1 SV.zero)
+  let t1 := Tr.mapUpL (fwdIn f udotP) t0
+  Tr.flattenL (Tr.mapDownL (fwdOut udotP) t1 SV.zero)
 
 def udotOf (nu : Nat) (r : List (AccNode K)) : Array K := scatter nu (r.map (fun x => (x.body.u0, x.udot)))
 
